@@ -372,5 +372,60 @@ func Scenarios() []*Scenario {
 	add(&Scenario{Name: "init-volready-then-fail", Entry: "initiator/voluntary-reports-ready", Neg: "std", Feats: []FeatSpec{fVol, fVol2},
 		Outs:  map[int][]SVal{0: {{K: "out", Mask: bReady}}, 1: {{K: "out", Err: true}}},
 		Clear: Stream{srvHeader("1.0", true), featuresSeg(false, advCustom(0, fVol, false, false), advCustom(1, fVol2, true, false))}})
-	return out
+	// ---- every reply the peer is expected to give (stream header, features list, <proceed/>,
+	// <success/>, <challenge/>, bind result, selections, <handshake/>) replaced by a stream
+	// error (tcp: <stream:error>, ws: <error xmlns=streams>) or by the end of the stream
+	// (</stream:stream>, ws: <close/>), with nothing after it; the cuts inside the replacement
+	// are enumerated as for every scenario
+	var derived []*Scenario
+	for _, sc := range out {
+		if !sc.WantOK || sc.TLS || sc.RWOnly || sc.NoReseg {
+			continue
+		}
+		ws := sc.Neg == "ws"
+		for i := range sc.Clear {
+			prefix := append(Stream{}, sc.Clear[:i]...)
+			off := prefix.Len()
+			var se, end Seg
+			if ws {
+				se = SegOf(S(`<error xmlns="`+nsStreams+`">`, "KStreamErr"), SC(`<host-unknown xmlns='urn:ietf:params:xml:ns:xmpp-streams'/>`, "KInner"), E(`</error>`))
+				end = SegOf(SC(`<close xmlns="`+nsFraming+`"/>`, "KOther"))
+			} else {
+				se = SegOf(S(`<stream:error>`, "KStreamErr"), SC(`<host-unknown xmlns='urn:ietf:params:xml:ns:xmpp-streams'/>`, "KInner"), E(`</stream:error>`))
+				end = SegOf(E(`</stream:stream>`))
+			}
+			if sc.Neg == "comp" {
+				// component.Negotiator looks at the local name only
+				se.Units[0] = S(`<stream:error>`, "KCompErr")
+			}
+			mk := func(tag string, seg Seg, wantSE bool) {
+				v := *sc
+				v.Name = fmt.Sprintf("%s!%s%d", sc.Name, tag, i)
+				v.Entry = sc.Entry + "/" + map[string]string{"se": "stream-error-in-place-of-reply", "end": "stream-end-in-place-of-reply"}[tag]
+				v.WantOK = false
+				v.Lite = off + 1
+				v.WantStreamErr = wantSE
+				v.Clear = append(prefix, seg)
+				derived = append(derived, &v)
+			}
+			hdr := sc.Clear[i].Header
+			if hdr && !ws && sc.Neg != "comp" {
+				// in place of a tcp stream header nothing has declared the stream prefix yet
+				se = SegOf(S(`<stream:error xmlns:stream='`+nsStreams+`'>`, "KStreamErr"), SC(`<host-unknown xmlns='urn:ietf:params:xml:ns:xmpp-streams'/>`, "KInner"), E(`</stream:error>`))
+			}
+			// where the library decodes the error: everywhere but the receiving side's
+			// feature selection (policy-violation, itself a stream error) and the component's
+			// stream header (a plain error)
+			mk("se", se, !(sc.Neg == "comp" && hdr))
+			if hdr && sc.Neg == "comp" {
+				// the component negotiator only checks the name of the first start tag
+				derived[len(derived)-1].Clear[i].Units[0] = S(`<stream:error>`, "KOther")
+			}
+			if !hdr || ws {
+				// (a stream end tag in place of a tcp stream header is a tokenizer error, no token)
+				mk("end", end, false)
+			}
+		}
+	}
+	return append(out, derived...)
 }
